@@ -81,6 +81,23 @@ pub(crate) fn mk_spec(v: Vec<ModuleFilter>) -> LogSpecification {
         textfilter: None,
     }
 }
+// spec with the text filter `t` (0 = none, else the regex model's pattern id t)
+pub(crate) fn mk_spec_tf(v: Vec<ModuleFilter>, t: u8) -> LogSpecification {
+    LogSpecification {
+        module_filters: v,
+        #[cfg(feature = "textfilter")]
+        textfilter: if t == 0 { None } else { Some(Box::new(Regex { id: t })) },
+    }
+}
+// text filter of a spec as the model id (0 = none); always 0 without the feature
+pub(crate) fn tf_of(s: &LogSpecification) -> u8 {
+    #[cfg(feature = "textfilter")]
+    {
+        return s.text_filter().map_or(0, |r| r.id);
+    }
+    #[allow(unreachable_code)]
+    0
+}
 
 // @verif prop=C02 tier=quick timeout=400 bounds=2-named-filters(len1..3,alphabet{a,b,:})+optional-default,target<=4-bytes,pre-sorted
 // enabled() on a length-sorted filter vector == reference "longest specified module name that is a prefix of the target, else default, else off", for all levels incl. Off, names that are prefixes of each other, empty target.
